@@ -22,9 +22,10 @@ import (
 // old count on its next turns and admits more queries than the limit allows.
 func c17Admission(c *core.Ctx, r *core.Report, sm *summaries) {
 	fn := c.Fn(pkgQuery, "PullQueriesToRun")
-	canRun := c.Obj(pkgQuery, "canRunQuery")
-	next := c.Obj(pkgQuery, "getNextWaitStateData")
 	table := c.Global(pkgQuery, "allRunningQueries")
+	waiting := c.Global(pkgQuery, "waitingQueries")
+	active := c.Obj(pkgQuery, "GetActiveQueryCount")
+	samePkg := func(f *ssa.Function) bool { return f != nil && f.Blocks != nil && core.FnPkgPath(f) == core.FnPkgPath(fn) }
 	// functions from which an insertion into the running table is reachable over static calls
 	inserts := map[*ssa.Function]bool{}
 	for _, f := range c.RepoFunctions() {
@@ -49,90 +50,154 @@ func c17Admission(c *core.Ctx, r *core.Report, sm *summaries) {
 		}
 	}
 	reach := sm.staticMayReach(objs(seeds...))
-	checks := callsTo(fn, canRun)
-	r.Floor("GUARD", "evaluations of canRunQuery in the admission loop", len(checks), 1)
-	for i, chk := range checks {
-		construct := fmt.Sprintf("%s:admission#%d-registers-before-the-next-decision", shortFn(fn), i+1)
-		// start: the accepting edge
-		var start *ssa.BasicBlock
-		for _, b := range fn.Blocks {
-			if ifi, ok := core.LastIf(b); ok {
-				cond, neg := ifi.Cond, false
-				if u, ok := cond.(*ssa.UnOp); ok && u.Op == token.NOT {
-					cond, neg = u.X, true
-				}
-				if cond == ssa.Value(chk) {
-					start = b.Succs[0]
-					if neg {
-						start = b.Succs[1]
-					}
-				}
-			}
+
+	// The three notions are named by their effects, so that the admission loop may use helpers (canRunQuery,
+	// getNextWaitStateData today) or be written out:
+	//   take     — the head of the waiting queue is removed: a store of waitingQueries[k:] into waitingQueries,
+	//              in the loop itself or in a function of the package it calls
+	//   decision — the capacity test: a boolean made from GetActiveQueryCount(), in the loop or in a boolean
+	//              function of the package it calls
+	//   register — a synchronous call from which the insertion into allRunningQueries is reachable
+	isPop := func(in ssa.Instruction) bool {
+		st, ok := in.(*ssa.Store)
+		if !ok || st.Addr != ssa.Value(waiting) {
+			return false
 		}
-		if start == nil {
-			r.Undecided("GUARD", construct, c.Pos(chk.Pos()), "the result of canRunQuery() is not branched on directly")
-			continue
+		sl, ok := st.Val.(*ssa.Slice)
+		if !ok || sl.Low == nil {
+			return false
 		}
-		// walk from the accepting edge; stop at synchronous registering calls and at paths that took nothing
-		var leak ssa.Instruction
-		took := false
-		type bt struct {
-			b *ssa.BasicBlock
-			t bool
-		}
-		var walk func(b *ssa.BasicBlock, took bool, seen map[bt]bool)
-		walk = func(b *ssa.BasicBlock, took bool, seen map[bt]bool) {
-			if seen[bt{b, took}] || leak != nil {
-				return
-			}
-			seen[bt{b, took}] = true
+		ld, ok := sl.X.(*ssa.UnOp)
+		return ok && ld.X == ssa.Value(waiting)
+	}
+	holdsPop := func(f *ssa.Function) bool {
+		for _, b := range f.Blocks {
 			for _, in := range b.Instrs {
-				switch x := in.(type) {
-				case *ssa.Go:
-					// asynchronous: does not register before the loop goes on
-					if callee := x.Call.StaticCallee(); callee != nil && (inserts[callee] || reach[callee]) {
-						took = true
-					}
-				case *ssa.Call:
-					if core.IsCallTo(x, next) {
-						took = true
-					}
-					if callee := x.Call.StaticCallee(); callee != nil && (inserts[callee] || reach[callee]) {
-						return // registered synchronously
-					}
-					if x == chk && took {
-						leak = in
-						return
-					}
-					if x == chk {
-						return
-					}
+				if isPop(in) {
+					return true
 				}
-			}
-			// on the edge where the queue gave nothing (result == nil), nothing was taken
-			if ifi, ok := core.LastIf(b); ok {
-				if bo, ok := ifi.Cond.(*ssa.BinOp); ok && (bo.Op == token.EQL || bo.Op == token.NEQ) && core.IsNilConst(bo.Y) {
-					if call, ok := bo.X.(*ssa.Call); ok && core.IsCallTo(call, next) {
-						nilEdge, otherEdge := b.Succs[0], b.Succs[1]
-						if bo.Op == token.NEQ {
-							nilEdge, otherEdge = otherEdge, nilEdge
-						}
-						walk(nilEdge, false, seen)
-						walk(otherEdge, took, seen)
-						return
-					}
-				}
-			}
-			for _, s := range b.Succs {
-				walk(s, took, seen)
 			}
 		}
-		_ = took
-		walk(start, false, map[bt]bool{})
-		if leak != nil {
-			r.Violation("GUARD", construct, c.Pos(chk.Pos()), "after a query was taken from the waiting queue the loop can evaluate canRunQuery() again before that query is in the running table (its start is not a synchronous call): the count the decision is based on is stale, so more queries are admitted than the configured limit")
+		return false
+	}
+	usesActive := func(f *ssa.Function) bool { return len(callsTo(f, active)) > 0 }
+	var takes []ssa.Instruction
+	var decisions []ssa.Value
+	for _, b := range fn.Blocks {
+		for _, in := range b.Instrs {
+			if isPop(in) {
+				takes = append(takes, in)
+			}
+			switch x := in.(type) {
+			case *ssa.Call:
+				h := x.Call.StaticCallee()
+				if samePkg(h) && holdsPop(h) {
+					takes = append(takes, in)
+				}
+				if samePkg(h) && usesActive(h) && h.Signature.Results().Len() == 1 {
+					if bt, ok := h.Signature.Results().At(0).Type().Underlying().(*types.Basic); ok && bt.Kind() == types.Bool {
+						decisions = append(decisions, x)
+					}
+				}
+			case *ssa.BinOp:
+				for _, side := range []ssa.Value{x.X, x.Y} {
+					v := side
+					if cv, ok := v.(*ssa.Convert); ok {
+						v = cv.X
+					}
+					if call, ok := v.(*ssa.Call); ok && core.IsCallTo(call, active) {
+						decisions = append(decisions, x)
+					}
+				}
+			}
+		}
+	}
+	r.Floor("GUARD", "capacity tests in the admission loop", len(decisions), 1)
+	r.Floor("GUARD", "removals from the waiting queue in the admission loop", len(takes), 1)
+	isDecision := map[ssa.Instruction]bool{}
+	for _, d := range decisions {
+		isDecision[d.(ssa.Instruction)] = true
+	}
+	for i, tk := range takes {
+		// (B) nothing is taken from the queue before it is known that it can run
+		construct := fmt.Sprintf("%s:take#%d-only-where-there-is-room", shortFn(fn), i+1)
+		room := false
+		for _, d := range decisions {
+			if core.BoolKnownAt(d, tk.Block()) == core.Yes {
+				room = true
+			}
+		}
+		r.Check(room, "GUARD", construct, c.Pos(tk.Pos()), "the head of the waiting queue is removed only where the capacity test is known true",
+			"a query is removed from the waiting queue before (or without) the test that there is room in the running table: when the table is full the query is dropped — it is in neither table, gets no READY and no timeout, and cancel/delete cannot find it; the request never gets an answer")
+		// (A) once a query is taken it is registered by a synchronous call before the next capacity test
+		construct = fmt.Sprintf("%s:admission#%d-registers-before-the-next-decision", shortFn(fn), i+1)
+		var leak ssa.Instruction
+		// the pointer to what was taken: the helper's result, or — for a removal written out in the loop — the head
+		// element read in the same block, and the variables (phis) it is merged into; on the edge where that pointer
+		// is nil nothing was taken
+		takenPtrs := map[ssa.Value]bool{}
+		if call, ok := tk.(*ssa.Call); ok {
+			takenPtrs[call] = true
 		} else {
-			r.OK("GUARD", construct, c.Pos(chk.Pos()), "every path that takes a waiting query passes a synchronous call that registers it before the next decision")
+			for _, in := range tk.Block().Instrs {
+				ld, ok := in.(*ssa.UnOp)
+				if !ok || ld.Op != token.MUL {
+					continue
+				}
+				ia, ok := ld.X.(*ssa.IndexAddr)
+				if !ok {
+					continue
+				}
+				if src, ok := ia.X.(*ssa.UnOp); ok && src.X == ssa.Value(waiting) {
+					takenPtrs[ld] = true
+					work := []ssa.Value{ld}
+					for len(work) > 0 {
+						v := work[len(work)-1]
+						work = work[:len(work)-1]
+						if refs := v.Referrers(); refs != nil {
+							for _, u := range *refs {
+								if phi, ok := u.(*ssa.Phi); ok && !takenPtrs[phi] {
+									takenPtrs[phi] = true
+									work = append(work, phi)
+								}
+							}
+						}
+					}
+				}
+			}
+		}
+		core.WalkForwardEdges(fn, tk, func(in ssa.Instruction) bool {
+			switch x := in.(type) {
+			case *ssa.Call:
+				if callee := x.Call.StaticCallee(); callee != nil && (inserts[callee] || reach[callee]) {
+					return false // registered synchronously
+				}
+			}
+			if isDecision[in] && leak == nil {
+				leak = in
+			}
+			return true
+		}, func(from, to *ssa.BasicBlock) bool {
+			// the edge on which the helper gave nothing (result == nil): nothing was taken
+			if len(takenPtrs) > 0 {
+				if ifi, ok := core.LastIf(from); ok {
+					if bo, ok := ifi.Cond.(*ssa.BinOp); ok && (bo.Op == token.EQL || bo.Op == token.NEQ) && core.IsNilConst(bo.Y) && takenPtrs[bo.X] {
+						nilEdge := from.Succs[0]
+						if bo.Op == token.NEQ {
+							nilEdge = from.Succs[1]
+						}
+						if to == nilEdge {
+							return false
+						}
+					}
+				}
+			}
+			return true
+		})
+		if leak != nil {
+			r.Violation("GUARD", construct, c.Pos(tk.Pos()), "after a query was taken from the waiting queue the loop can evaluate the capacity test again before that query is in the running table (its start is not a synchronous call): the count the decision is based on is stale, so more queries are admitted than the configured limit")
+		} else {
+			r.OK("GUARD", construct, c.Pos(tk.Pos()), "every path that takes a waiting query passes a synchronous call that registers it before the next decision")
 		}
 	}
 }
